@@ -62,6 +62,12 @@ def counter_plain_sum(ctx, sites):
         o.loc = st.instr.line()
         cmax = has_method(cnt["atoms"], "core::cmp::Ord::max")
         vmax = has_method(vio["atoms"], "core::cmp::Ord::max")
+        if not vmax:
+            # the positive part written out: `if c > 0 { c } else { 0 }`
+            from .. import shape as _sh
+            from .formulas import flatten as _flat
+            ev = _sh.normalise(_sh.expr(fdx, ops["total_maintenance_violation"]))
+            vmax = any(t[0] == "phi" and any(a[0] == "const" and str(a[1]).startswith("0") for a in t[1]) for _, t in _flat(ev))
         outer = direct_def_instr(fdx, ops["total_maintenance_violation"])
         if outer is not None and outer.kind == "call" and (outer.decl or outer.callee or "").endswith("::max"):
             ctx.bad(o, "the total violation is clamped once at the end (`(..).max(0)`) instead of summing the positive parts of each cycle: a cycle "
